@@ -18,7 +18,7 @@ RULE = ("history = a fault-free run against upstream V1 (published state) follow
         "kinds) with a non-empty plan")
 
 CLASSES = ["none", "transient", "persistent-required", "persistent-optional", "inconsistent-release", "ignore-errors",
-           "dist-upgrader", "persistent-required"]
+           "dist-upgrader", "persistent-required", "dist-upgrader-broken"]
 
 
 def views(w, url):
@@ -31,7 +31,7 @@ def run_one(chk, sseed, cls):
     extra = []
     w = common.World(rng, nrepos)
     try:
-        if cls == "dist-upgrader":
+        if cls in ("dist-upgrader", "dist-upgrader-broken"):
             for r in w.repos:
                 extra.append(f"mirror_dist_upgrader {r['url']}")
         ign_target = None
@@ -103,6 +103,21 @@ def run_one(chk, sseed, cls):
                 chk.count("ignored_target_really_requested", 1 if plans[url] else 0)
             elif c == "dist-upgrader":
                 plans[url], infos[url] = [], {"what": "dist-upgrader"}
+            elif c == "dist-upgrader-broken":
+                # only the *absence* (404) of a dist-upgrader file is tolerated: one that is there but cannot be transferred
+                # (server error, aborted or mis-sized body on every try) is a failed file like any other
+                cns = [cn for cn, comps in sorted(w.cfgs[url]["codenames"].items()) if "main" in comps]
+                if not cns:
+                    plans[url], infos[url] = [], {"what": "dist-upgrader (no main component)"}
+                else:
+                    cn = rng.choice(cns)
+                    base = cn.split("-", 1)[0]
+                    name = rng.choice([f"{base}.tar.gz", f"{base}.tar.gz.gpg", "ReleaseAnnouncement", "ReleaseAnnouncement.html", "EOLReleaseAnnouncement"])
+                    rel = f"dists/{cn}/main/dist-upgrader-all/current/{name}"
+                    stores2[url][rel] = (b"dist-upgrader payload " * 8, 1_000_500_000)
+                    fault = rng.choice(["500", "abort", "500"])
+                    plans[url], infos[url] = [[rel, "*", fault]], {"what": "dist-upgrader-broken", "target": rel, "fault": fault}
+                    failing.add(url)
         before = {r["url"]: views(w, r["url"]) for r in new}
         res2 = run_e2e.execute(w.sb, new, stores2, plans, vloop.RandomChooser(rng.randrange(1 << 30)))
         replay = {"scenario_seed": sseed, "class": cls, "classes": classes, "plans": plans, "lines": w.lines + extra}
